@@ -280,7 +280,11 @@ ghost_after('GroupPath._pass_part_downstream', '<entry>', g_k='0')
 exit_cl = pass_through_clauses('old(trace_len())', False)
 exit_cl = {n_: t_.replace(OPEN, 'True') for n_, t_ in exit_cl.items() if 'refuses_iff_closed' not in n_}
 contract('GroupPath._pass_part_downstream', props=['C08'], for_cls=['GroupPath'], args={'part': 'ref:Part'}, result='bool',
-         requires={'part_alive': 'part is None or alive(part)'}, ensures=exit_cl, modifies=['$trace'])
+         requires={'part_alive': 'part is None or alive(part)'}, ensures=exit_cl,
+         # used modularly by GroupOutput.give_part (the path is another object there: its wiring is outside the rely of
+         # the output device).  The accepting / refusing neighbours may have touched the part: its stack is in the frame.
+         modular=True, ghost_results={'g_k': 'int'},
+         modifies=['$trace', 'part._group_pathing', 'part._group_pathing[]'])
 
 # GroupPath.give_part.  The neighbour extern give_part carries no assumption about the part it was offered, so the stack
 # discipline is stated relative to ghost snapshots: g_pushed (this path is on top right after the push), g_n / g_stack
@@ -312,4 +316,43 @@ contract('GroupPath.give_part', props=['C08'], for_cls=['GroupPath'], args={'par
              'C08/taken_by_the_group_keeps_stack_and_history':
                  f'implies({GP_OPEN} and result, seq(part._group_pathing) == g_stack and '
                  '  trace_kind(trace_len() - 1) == fn_id("give_part") and trace_resb(trace_len() - 1))',
+         })
+
+# GroupOutput.give_part: the part leaves the group through the path it entered LAST (top of its stack); the stack is
+# popped iff a downstream of that path took the part.  g_top / g_n: top entry and height of the stack at entry;
+# g_n2 / g_stack: the stack when the path's exit side has answered (see the note at GroupPath.give_part).
+ghost_after('GroupOutput.give_part', '<entry>', g_k='0', g_n2='0', g_stack='seq(part._group_pathing)')
+ghost_after('GroupOutput.give_part', 'did_pass = last_entered_group._pass_part_downstream(part)',
+            g_n2='len(part._group_pathing)', g_stack='seq(part._group_pathing)')
+TOP = 'old(part._group_pathing[-1])'
+contract('GroupOutput.give_part', props=['C08'], for_cls=['GroupOutput'], args={'part': 'ref:Part'}, result='bool',
+         requires={'part_exists': 'part is not None and alive(part) and part._group_pathing is not None and '
+                                  'alive(part._group_pathing) and '
+                                  'all(p is not None and alive(p) and p._downstream is not None and alive(p._downstream) and '
+                                  '    p._downstream is not part._group_pathing and '
+                                  '    all(d is not None and alive(d) for d in p._downstream) for p in part._group_pathing)'},
+         raises={'RuntimeError': ('len(part._group_pathing) == 0', {'part_without_entry_record_changes_nothing': '@frame:'})},
+         may_raise=['IndexError', 'AttributeError'],
+         ensures={
+             'C08/offered_only_to_downstreams_of_the_most_recently_entered_path_in_candidate_order':
+                 'all(trace_kind(old(trace_len()) + j) == fn_id("give_part") and trace_ref(old(trace_len()) + j, 0) is part and '
+                 '    0 <= sorted_perm("", j) and sorted_perm("", j) < old(len(part._group_pathing[-1]._downstream)) and '
+                 f'   trace_recv(old(trace_len()) + j) is old(part._group_pathing[-1]._downstream[sorted_perm("", j)]) '
+                 '    for j in range(trace_len() - old(trace_len())))',
+             'C02,C08/accepted_iff_the_last_offer_was_taken_and_all_earlier_ones_refused':
+                 'all(trace_resb(old(trace_len()) + j) == (result and j == trace_len() - old(trace_len()) - 1) '
+                 '    for j in range(trace_len() - old(trace_len()))) and '
+                 'implies(not result, trace_len() == old(trace_len()) + old(len(part._group_pathing[-1]._downstream))) and '
+                 'implies(result, trace_len() > old(trace_len()))',
+             'C08/top_of_the_stack_popped_iff_the_part_left_the_group':
+                 'ite(result, len(part._group_pathing) == g_n2 - 1 and '
+                 '            all(part._group_pathing[j] == g_stack[j] for j in range(g_n2 - 1)), '
+                 '    seq(part._group_pathing) == g_stack)',
+             # what the property needs: the entry removed is the one of THIS group (the old top).  Not what the code does
+             # when the taker pushed an entry of its own (exit of one group wired directly into a path of the next group,
+             # or into another path of the same group): pop() then removes the taker's entry.  Reproduced natively.
+             'C08/entry_removed_is_the_one_of_this_group_even_if_the_taker_pushed_its_own':
+                 'implies(result and g_n2 >= old(len(part._group_pathing)), len(part._group_pathing) == g_n2 - 1 and '
+                 '  all(part._group_pathing[j] == g_stack[ite(j < old(len(part._group_pathing)) - 1, j, j + 1)] '
+                 '      for j in range(g_n2 - 1)))',
          })
